@@ -193,11 +193,28 @@ def canon (c : Config) (n : Nat) (r : Result) : String :=
   " p=" ++ joinOr ";" (r.policies.map (showPolicy n)) ++
   " s=" ++ joinOr ";" (r.servers.map (showServer c n))
 
+def lookupSrv (k : Nat) : List (Nat × SrvOut) → Option SrvOut
+  | [] => none
+  | kv :: rest => if kv.1 = k then some kv.2 else lookupSrv k rest
+
+def showFlagsOnly (c : Config) (r : Result) (i : Nat) : String :=
+  "s" ++ toString i ++ "/" ++
+  (match lookupSrv i r.servers with
+   | some so => if c.reserved = some i then "~" else showBit so.disabled ++ toString so.tls
+   | none => "~")
+
+/-- the order-independent part only: used when `ambiguous c` -/
+def canonAmb (c : Config) (n : Nat) (r : Result) : String :=
+  "amb c=" ++ String.join ((List.range n).map fun d => showBit (r.certs.contains d)) ++
+    (if r.certs.any (fun d => decide (n ≤ d)) then "!" else "") ++
+  " p=" ++ joinOr ";" (r.policies.map (showPolicy n)) ++
+  " s=" ++ joinOr ";" ((List.range c.servers.length).map (showFlagsOnly c r))
+
 def showOutcome (c : Config) (n : Nat) : Outcome → String
   | .errTLS => "err:tls"
   | .errMatcher => "err:matcher"
   | .errAddr => "err:addr"
-  | .ok r => canon c n r
+  | .ok r => if ambiguous c then canonAmb c n r else canon c n r
 
 def handle : List String → String
   | ["cfg", k, hp, sp, names, servers, policies, loaded] =>
